@@ -1,5 +1,6 @@
 import EaselModel.Msa.LemmasNested
 import EaselModel.Msa.LemmasShape
+import EaselModel.Msa.LemmasCount
 /-! Lemmas: for a NESTED pair table `esl_ct2wuss` never enters its pseudoknot branch and writes a bracket labelling of
     the table (`Labels`), so that `esl_wuss2ct` reads the same table back. -/
 namespace EaselModel.Msa
@@ -103,7 +104,8 @@ theorem popLoop_nested (n : Nat) (ct : List Nat) (hlen : ct.length = n + 1) (j i
       res.2.2.cct = ct.toArray ∧ res.2.2.auxpk = [] ∧ res.2.2.auxss = [] ∧ res.2.2.ss.size = n ∧
       (isOpenBr (ssAt res.2.2.ss (i-1)) = true ∧ ssAt res.2.2.ss (j-1) = closerOf (ssAt res.2.2.ss (i-1))) ∧
       (∀ q, q ≠ i - 1 → q ≠ j - 1 → (ct.getD (q+1) 0 ≠ 0 ∨ n ≤ q) → ssAt res.2.2.ss q = ssAt st.ss q) ∧
-      (∀ q, q < n → ct.getD (q+1) 0 = 0 → isUnpairedSym (ssAt st.ss q) = true → isUnpairedSym (ssAt res.2.2.ss q) = true)
+      (∀ q, q < n → ct.getD (q+1) 0 = 0 → isUnpairedSym (ssAt st.ss q) = true → isUnpairedSym (ssAt res.2.2.ss q) = true) ∧
+      res.2.2.reached = st.reached + 1
   | [], nf, mf, st, res, _, hmf1, hmf2, hcct, hpk, hsz, haux, h => by
     simp only [List.nil_append] at h
     unfold popLoop at h
@@ -158,7 +160,7 @@ theorem popLoop_nested (n : Nat) (ct : List Nat) (hlen : ct.length = n + 1) (j i
                 omega
               · omega
             have hsz3 : ss3.size = n := by rw [d.1, w2.2.2.1, w1.2.2.1, hsz]
-            refine ⟨rfl, ⟨_, rfl, hmfv.1, hmfv.2⟩, rfl, hpk, rfl, hsz3, ?_, ?_, ?_⟩
+            refine ⟨rfl, ⟨_, rfl, hmfv.1, hmfv.2⟩, rfl, hpk, rfl, hsz3, ?_, ?_, ?_, rfl⟩
             · show isOpenBr (ssAt ss3 (i-1)) = true ∧ ssAt ss3 (j-1) = closerOf (ssAt ss3 (i-1))
               rw [r_i, r_j]; exact hoc'
             · intro q hq1 hq2 hq3
@@ -214,12 +216,101 @@ theorem popLoop_nested (n : Nat) (ct : List Nat) (hlen : ct.length = n + 1) (j i
           · exact ⟨h1, h2, h3⟩
           · exact haux p hp) h
 
+theorem wrSs_ok_of_range (a : Array UInt8) (i : Int) (v : UInt8) (h0 : 0 ≤ i) (h : i.toNat < a.size) :
+    ∃ a', wrSs a i v = .ok a' := ⟨_, by unfold wrSs; rw [if_pos ⟨h0, h⟩]⟩
+
+theorem drainAuxss_ok (nf : Nat) : ∀ (l : List Nat) (a : Array UInt8), (∀ p ∈ l, 1 ≤ p ∧ p ≤ a.size) →
+    ∃ a', drainAuxss nf l a = .ok a'
+  | [], a, _ => ⟨a, rfl⟩
+  | i :: rest, a, h => by
+    have hi := h i (by simp)
+    obtain ⟨a1, h1⟩ := wrSs_ok_of_range a ((i : Int) - 1)
+      (if nf == 0 then (0x5f : UInt8) else if nf == 1 then 0x2d else 0x2c) (by omega) (by omega)
+    have hs := (wrSs_ok_inv h1).2.2.1
+    obtain ⟨a', h'⟩ := drainAuxss_ok nf rest a1 (fun p hp => by rw [hs]; exact h p (by simp [hp]))
+    exact ⟨a', by simp only [drainAuxss, bind, Except.bind, h1, h']⟩
+
+theorem faceChars_ok (mf : Int) (h1 : -4 ≤ mf) (h2 : mf ≤ -1) :
+    ∃ oc, (if mf == -1 then .ok (chLt, chGt) else if mf == -2 then .ok (chLp, chRp)
+          else if mf == -3 then .ok (chLb, chRb) else if mf == -4 then .ok (chLc, chRc)
+          else .error WErr.einconceivable : Except WErr (UInt8 × UInt8)) = .ok oc := by
+  have : mf = -1 ∨ mf = -2 ∨ mf = -3 ∨ mf = -4 := by omega
+  rcases this with h | h | h | h <;> subst h <;> exact ⟨_, rfl⟩
+
+/-- ... and the pop loop cannot fail on a nested table -/
+theorem popLoop_nested_noerr (n : Nat) (ct : List Nat) (hlen : ct.length = n + 1) (j i : Nat) (below : List Int)
+    (hj : 1 ≤ j ∧ j ≤ n) (hi : 1 ≤ i ∧ i < j) (hij : ct.getD i 0 = j) :
+    ∀ (above : List Int) (nf : Nat) (mf : Int) (st : C2W) (e : WErr),
+      (∀ a ∈ above, (a < 0 ∧ -4 ≤ a) ∨ (0 ≤ a ∧ 1 ≤ a.toNat ∧ a.toNat ≤ n ∧ ct.getD a.toNat 0 = 0)) →
+      -4 ≤ mf → mf ≤ -1 →
+      st.cct = ct.toArray → st.ss.size = n →
+      (∀ p ∈ st.auxss, 1 ≤ p ∧ p ≤ n ∧ ct.getD p 0 = 0) →
+      popLoop false ct.toArray j (above ++ (i : Int) :: below) nf mf st ≠ .error e
+  | [], nf, mf, st, e, _, hmf1, hmf2, hcct, hsz, haux, h => by
+    simp only [List.nil_append] at h
+    unfold popLoop at h
+    have hnot : ¬ ((!false && decide ((i : Int) < 0)) = true) := by simp
+    rw [if_neg hnot] at h
+    simp only [bind, Except.bind, pure, Except.pure] at h
+    rw [hcct, rdNat_toArray ct (i : Int) (by omega) (by simp; omega)] at h
+    simp only [Int.toNat_natCast, hij, beq_self_eq_true, if_true, Bool.false_eq_true, if_false] at h
+    have hmfv : -4 ≤ (if (decide (nf > 1) && decide (mf > -4)) = true then mf - 1 else mf) ∧
+        (if (decide (nf > 1) && decide (mf > -4)) = true then mf - 1 else mf) ≤ -1 := by
+      split
+      · rename_i hc
+        simp only [Bool.and_eq_true, decide_eq_true_eq] at hc
+        omega
+      · omega
+    obtain ⟨oc, hoc⟩ := faceChars_ok _ hmfv.1 hmfv.2
+    rw [hoc] at h
+    simp only at h
+    obtain ⟨ss1, h1⟩ := wrSs_ok_of_range st.ss ((i : Int) - 1) oc.1 (by omega) (by omega)
+    rw [h1] at h
+    simp only at h
+    have hs1 := (wrSs_ok_inv h1).2.2.1
+    obtain ⟨ss2, h2⟩ := wrSs_ok_of_range ss1 ((j : Int) - 1) oc.2 (by omega) (by omega)
+    rw [h2] at h
+    simp only at h
+    have hs2 := (wrSs_ok_inv h2).2.2.1
+    obtain ⟨ss3, h3⟩ := drainAuxss_ok nf st.auxss ss2 (fun p hp => by
+      have := haux p hp; rw [hs2, hs1, hsz]; exact ⟨this.1, this.2.1⟩)
+    rw [h3] at h
+    cases h
+  | a :: above, nf, mf, st, e, habove, hmf1, hmf2, hcct, hsz, haux, h => by
+    have ha := habove a (by simp)
+    have habove' : ∀ a' ∈ above, (a' < 0 ∧ -4 ≤ a') ∨ (0 ≤ a' ∧ 1 ≤ a'.toNat ∧ a'.toNat ≤ n ∧ ct.getD a'.toNat 0 = 0) :=
+      fun a' h' => habove a' (by simp [h'])
+    simp only [List.cons_append] at h
+    unfold popLoop at h
+    rcases ha with ⟨hneg, hge⟩ | ⟨hnn, h1, h2, h3⟩
+    · have hc : ((!false && decide (a < 0)) = true) := by simp [hneg]
+      rw [if_pos hc] at h
+      exact popLoop_nested_noerr n ct hlen j i below hj hi hij above (nf+1) (if a < mf then a else mf) st e habove'
+        (by split <;> omega) (by split <;> omega) hcct hsz haux h
+    · have hc : ¬ ((!false && decide (a < 0)) = true) := by simp; omega
+      rw [if_neg hc] at h
+      simp only [bind, Except.bind, pure, Except.pure] at h
+      rw [hcct, rdNat_toArray ct a hnn (by omega), h3] at h
+      have hne : ((0:Nat) == j) = false := by simp; omega
+      simp only [hne, Bool.false_eq_true, if_false, beq_self_eq_true, if_true] at h
+      exact popLoop_nested_noerr n ct hlen j i below hj hi hij above nf mf
+        { ss := st.ss, cct := ct.toArray, rb := st.rb, auxpk := st.auxpk, auxss := a.toNat :: st.auxss, reached := st.reached }
+        e habove' hmf1 hmf2 rfl hsz
+        (by
+          intro p hp
+          change p ∈ a.toNat :: st.auxss at hp
+          simp only [List.mem_cons] at hp
+          rcases hp with rfl | hp
+          · exact ⟨h1, h2, h3⟩
+          · exact haux p hp) h
+
 /-- invariant of the main loop `for (j = 1; j <= n; j++)` on a nested table -/
 structure CInv (n : Nat) (ct : List Nat) (j : Nat) (pda : List Int) (st : C2W) : Prop where
   cct : st.cct = ct.toArray
   nopk : st.auxpk = []
   noaux : st.auxss = []
   sssize : st.ss.size = n
+  reached : st.reached = rightEnds ct j
   ent : ∀ a ∈ pda, (a < 0 ∧ -4 ≤ a) ∨ (0 ≤ a ∧ 1 ≤ a.toNat ∧ a.toNat < j)
   sorted : (pda.filter (fun a => decide (0 ≤ a))).Pairwise (· > ·)
   lefts : ∀ p, 1 ≤ p → p < j → j ≤ ct.getD p 0 → (p : Int) ∈ pda
@@ -236,6 +327,8 @@ theorem cinv_push {n : Nat} {ct : List Nat} (hct : CtOk n ct) {j : Nat} {pda : L
   nopk := inv.nopk
   noaux := inv.noaux
   sssize := inv.sssize
+  reached := by
+    rw [rightEnds_succ, if_neg (by rcases hcase with h | h <;> omega), Nat.add_zero]; exact inv.reached
   ent := by
     intro a ha
     simp only [List.mem_cons] at ha
@@ -292,6 +385,128 @@ theorem filter_nonneg_append (above below : List Int) (i : Nat) :
       above.filter (fun a => decide (0 ≤ a)) ++ (i : Int) :: below.filter (fun a => decide (0 ≤ a)) := by
   simp [List.filter_append, List.filter_cons]
 
+/-- one right end `j` of a nested table: the stack splits at the partner, everything above it is a marker or an
+    unpaired position, and whatever the pop loop returns re-establishes the invariant for `j+1` -/
+theorem cinv_right_end (n : Nat) (ct : List Nat) (hct : CtOk n ct) (hn : Nested ct) {j : Nat} {pda : List Int} {st : C2W}
+    (inv : CInv n ct j pda st) (hj1 : 1 ≤ j) (hjn : j ≤ n) (h0 : ct.getD j 0 ≠ 0) (hleft : ¬ j < ct.getD j 0) :
+    ∃ above below, pda = above ++ ((ct.getD j 0 : Nat) : Int) :: below ∧
+      (∀ a ∈ above, (a < 0 ∧ -4 ≤ a) ∨ (0 ≤ a ∧ 1 ≤ a.toNat ∧ a.toNat ≤ n ∧ ct.getD a.toNat 0 = 0)) ∧
+      (1 ≤ ct.getD j 0 ∧ ct.getD j 0 < j) ∧ ct.getD (ct.getD j 0) 0 = j ∧
+      ∀ res, popLoop false ct.toArray j pda 0 (-1) st = .ok res →
+        res.1 = true ∧ res.2.2.auxpk = [] ∧ ∃ mf', res.2.1 = mf' :: below ∧ CInv n ct (j+1) (mf' :: below) res.2.2 := by
+  have hpj := hct.2 j h0
+  have hi : 1 ≤ ct.getD j 0 ∧ ct.getD j 0 < j := ⟨hpj.2.2.1, by omega⟩
+  have hij : ct.getD (ct.getD j 0) 0 = j := hpj.2.2.2.2.1
+  have himem := inv.lefts (ct.getD j 0) hi.1 hi.2 (by rw [hij]; exact Nat.le_refl _)
+  obtain ⟨above, below, hsplit⟩ := List.append_of_mem himem
+  have hsorted := inv.sorted
+  rw [hsplit, filter_nonneg_append, List.pairwise_append] at hsorted
+  have habove : ∀ a ∈ above, (a < 0 ∧ -4 ≤ a) ∨ (0 ≤ a ∧ 1 ≤ a.toNat ∧ a.toNat ≤ n ∧ ct.getD a.toNat 0 = 0) := by
+    intro a ha
+    have hmem : a ∈ pda := by rw [hsplit]; simp [ha]
+    rcases inv.ent a hmem with h1 | h1
+    · exact Or.inl h1
+    · right
+      refine ⟨h1.1, h1.2.1, by omega, ?_⟩
+      rcases Nat.eq_zero_or_pos (ct.getD a.toNat 0) with hz | hz
+      · exact hz
+      · exfalso
+        have hgt : a > (ct.getD j 0 : Int) :=
+          hsorted.2.2 a (by simp [List.mem_filter, ha, h1.1]) _ (by simp)
+        have hge := inv.paired a hmem h1.1 (by omega)
+        have hne : ct.getD a.toNat 0 ≠ j := by
+          intro e
+          have := (hct.2 a.toNat (by omega)).2.2.2.2.1
+          rw [e] at this; omega
+        have := hn (ct.getD j 0) a.toNat (by rw [hij]; omega) (by omega) (by omega) (by rw [hij]; omega)
+        rw [hij] at this; omega
+  refine ⟨above, below, hsplit, habove, hi, hij, ?_⟩
+  intro res hres
+  rw [hsplit] at hres
+  obtain ⟨found, pda1, st1⟩ := res
+  have sp := popLoop_nested n ct hct.1 j (ct.getD j 0) below ⟨hj1, hjn⟩ hi hij rfl above 0 (-1) st _
+    habove (by omega) (by omega) inv.cct inv.nopk inv.sssize (by rw [inv.noaux]; simp) hres
+  simp only at sp
+  obtain ⟨hfound, ⟨mf', hpda1, hmf1, hmf2⟩, hcct1, hpk1, haux1, hsz1, hbr, hsame, hunp, hreach⟩ := sp
+  subst hfound hpda1
+  refine ⟨rfl, hpk1, mf', rfl, ?_⟩
+  show CInv n ct (j+1) (mf' :: below) st1
+  have hbelow_lt : ∀ b ∈ below, 0 ≤ b → b < (ct.getD j 0 : Int) := by
+    intro b hb h0b
+    have := (List.pairwise_cons.mp hsorted.2.1).1 b (by simp [List.mem_filter, hb, h0b])
+    exact this
+  exact {
+    cct := hcct1, nopk := hpk1, noaux := haux1, sssize := hsz1
+    reached := by
+      rw [rightEnds_succ, if_pos ⟨h0, by omega⟩, hreach, inv.reached]
+    ent := by
+      intro a ha
+      simp only [List.mem_cons] at ha
+      rcases ha with rfl | ha
+      · exact Or.inl ⟨by omega, hmf1⟩
+      · rcases inv.ent a (by rw [hsplit]; simp [ha]) with h1 | h1
+        · exact Or.inl h1
+        · exact Or.inr ⟨h1.1, h1.2.1, by omega⟩
+    sorted := by
+      have : (mf' :: below).filter (fun a => decide (0 ≤ a)) = below.filter (fun a => decide (0 ≤ a)) := by
+        simp [List.filter_cons]; omega
+      rw [this]
+      exact (List.pairwise_cons.mp hsorted.2.1).2
+    lefts := by
+      intro p h1 h2 h3
+      have hpj' : p ≠ j := by intro e; rw [e] at h3; omega
+      have hm := inv.lefts p h1 (by omega) (by omega)
+      rw [hsplit, List.mem_append, List.mem_cons] at hm
+      rcases hm with hm | hm | hm
+      · exfalso
+        rcases habove _ hm with hx | hx
+        · omega
+        · have := hx.2.2.2; rw [Int.toNat_natCast] at this; omega
+      · exfalso
+        have : p = ct.getD j 0 := by omega
+        rw [this, hij] at h3; omega
+      · exact List.mem_cons_of_mem _ hm
+    paired := by
+      intro a ha h0a hne
+      simp only [List.mem_cons] at ha
+      rcases ha with rfl | ha
+      · omega
+      · have hold := inv.paired a (by rw [hsplit]; simp [ha]) h0a hne
+        have hx : ct.getD a.toNat 0 ≠ j := by
+          intro e
+          have := (hct.2 a.toNat hne).2.2.2.2.1
+          rw [e] at this
+          have hlt := hbelow_lt a ha h0a
+          omega
+        omega
+    l1 := fun q hq h0q => hunp q hq h0q (inv.l1 q hq h0q)
+    l2 := by
+      intro j0 h1 h2 h3 h4
+      by_cases hp : j0 = j
+      · subst hp; exact hbr
+      · have hold := inv.l2 j0 h1 (by omega) h3 h4
+        have hp0 := hct.2 j0 h3
+        have hi0 : ct.getD (ct.getD j0 0) 0 = j0 := hp0.2.2.2.2.1
+        have e1 : ssAt st1.ss (ct.getD j0 0 - 1) = ssAt st.ss (ct.getD j0 0 - 1) := by
+          apply hsame
+          · intro e
+            have : ct.getD j0 0 = ct.getD j 0 := by omega
+            rw [this, hij] at hi0; omega
+          · omega
+          · left
+            have : ct.getD j0 0 - 1 + 1 = ct.getD j0 0 := by omega
+            rw [this, hi0]; omega
+        have e2 : ssAt st1.ss (j0 - 1) = ssAt st.ss (j0 - 1) := by
+          apply hsame
+          · intro e
+            have : j0 = ct.getD j 0 := by omega
+            rw [this, hij] at h4; omega
+          · omega
+          · left
+            have : j0 - 1 + 1 = j0 := by omega
+            rw [this]; exact h3
+        rw [e1, e2]; exact hold }
+
 /-- the main loop on a nested table keeps the invariant to the end -/
 theorem c2wMain_nested (n : Nat) (ct : List Nat) (hct : CtOk n ct) (hn : Nested ct) :
     ∀ (fuel j : Nat) (pda : List Int) (st st' : C2W), n + 1 ≤ j + fuel → j ≤ n + 1 → 1 ≤ j → CInv n ct j pda st →
@@ -326,119 +541,56 @@ theorem c2wMain_nested (n : Nat) (ct : List Nat) (hct : CtOk n ct) (hn : Nested 
       · rw [if_pos hleft] at h
         exact ih (j+1) _ st st' (by omega) (by omega) (by omega) (cinv_push hct inv hj1 (Or.inr hleft)) h
       · rw [if_neg hleft] at h
-        -- right end: the partner
-        have hpj := hct.2 j h0
-        have hi : 1 ≤ ct.getD j 0 ∧ ct.getD j 0 < j := ⟨hpj.2.2.1, by omega⟩
-        have hij : ct.getD (ct.getD j 0) 0 = j := hpj.2.2.2.2.1
-        have himem := inv.lefts (ct.getD j 0) hi.1 hi.2 (by rw [hij]; exact Nat.le_refl _)
-        obtain ⟨above, below, hsplit⟩ := List.append_of_mem himem
-        have hsorted := inv.sorted
-        rw [hsplit, filter_nonneg_append, List.pairwise_append] at hsorted
-        -- everything above the partner is a marker or an unpaired position
-        have habove : ∀ a ∈ above, (a < 0 ∧ -4 ≤ a) ∨ (0 ≤ a ∧ 1 ≤ a.toNat ∧ a.toNat ≤ n ∧ ct.getD a.toNat 0 = 0) := by
-          intro a ha
-          have hmem : a ∈ pda := by rw [hsplit]; simp [ha]
-          rcases inv.ent a hmem with h1 | h1
-          · exact Or.inl h1
-          · right
-            refine ⟨h1.1, h1.2.1, by omega, ?_⟩
-            rcases Nat.eq_zero_or_pos (ct.getD a.toNat 0) with hz | hz
-            · exact hz
-            · exfalso
-              have hgt : a > (ct.getD j 0 : Int) :=
-                hsorted.2.2 a (by simp [List.mem_filter, ha, h1.1]) _ (by simp)
-              have hge := inv.paired a hmem h1.1 (by omega)
-              have hne : ct.getD a.toNat 0 ≠ j := by
-                intro e
-                have := (hct.2 a.toNat (by omega)).2.2.2.2.1
-                rw [e] at this; omega
-              have := hn (ct.getD j 0) a.toNat (by rw [hij]; omega) (by omega) (by omega) (by rw [hij]; omega)
-              rw [hij] at this; omega
-        rw [hsplit] at h
+        obtain ⟨above, below, _, _, _, _, hstep⟩ := cinv_right_end n ct hct hn inv hj1 hjn h0 hleft
         split at h
         · cases h
         · rename_i res hres
+          obtain ⟨hfound, hpk1, mf', hpda1, inv1⟩ := hstep res hres
           obtain ⟨found, pda1, st1⟩ := res
-          have sp := popLoop_nested n ct hct.1 j (ct.getD j 0) below ⟨hj1, hjn⟩ hi hij rfl above 0 (-1) st _
-            habove (by omega) (by omega) inv.cct inv.nopk inv.sssize (by rw [inv.noaux]; simp) hres
-          simp only at sp h
-          obtain ⟨hfound, ⟨mf', hpda1, hmf1, hmf2⟩, hcct1, hpk1, haux1, hsz1, hbr, hsame, hunp⟩ := sp
+          simp only at hfound hpk1 hpda1 inv1 h
           subst hfound hpda1
           simp only [Bool.not_true, Bool.false_eq_true, if_false, hpk1] at h
-          apply ih (j+1) (mf' :: below) st1 st' (by omega) (by omega) (by omega) _ h
-          have hbelow_lt : ∀ b ∈ below, 0 ≤ b → b < (ct.getD j 0 : Int) := by
-            intro b hb h0b
-            have := (List.pairwise_cons.mp hsorted.2.1).1 b (by simp [List.mem_filter, hb, h0b])
-            exact this
-          exact {
-            cct := hcct1, nopk := hpk1, noaux := haux1, sssize := hsz1
-            ent := by
-              intro a ha
-              simp only [List.mem_cons] at ha
-              rcases ha with rfl | ha
-              · exact Or.inl ⟨by omega, hmf1⟩
-              · rcases inv.ent a (by rw [hsplit]; simp [ha]) with h1 | h1
-                · exact Or.inl h1
-                · exact Or.inr ⟨h1.1, h1.2.1, by omega⟩
-            sorted := by
-              have : (mf' :: below).filter (fun a => decide (0 ≤ a)) = below.filter (fun a => decide (0 ≤ a)) := by
-                simp [List.filter_cons]; omega
-              rw [this]
-              exact (List.pairwise_cons.mp hsorted.2.1).2
-            lefts := by
-              intro p h1 h2 h3
-              have hpj' : p ≠ j := by intro e; rw [e] at h3; omega
-              have hm := inv.lefts p h1 (by omega) (by omega)
-              rw [hsplit, List.mem_append, List.mem_cons] at hm
-              rcases hm with hm | hm | hm
-              · exfalso
-                rcases habove _ hm with hx | hx
-                · omega
-                · have := hx.2.2.2; rw [Int.toNat_natCast] at this; omega
-              · exfalso
-                have : p = ct.getD j 0 := by omega
-                rw [this, hij] at h3; omega
-              · exact List.mem_cons_of_mem _ hm
-            paired := by
-              intro a ha h0a hne
-              simp only [List.mem_cons] at ha
-              rcases ha with rfl | ha
-              · omega
-              · have hold := inv.paired a (by rw [hsplit]; simp [ha]) h0a hne
-                have hx : ct.getD a.toNat 0 ≠ j := by
-                  intro e
-                  have := (hct.2 a.toNat hne).2.2.2.2.1
-                  rw [e] at this
-                  have hlt := hbelow_lt a ha h0a
-                  omega
-                omega
-            l1 := fun q hq h0q => hunp q hq h0q (inv.l1 q hq h0q)
-            l2 := by
-              intro j0 h1 h2 h3 h4
-              by_cases hp : j0 = j
-              · subst hp; exact hbr
-              · have hold := inv.l2 j0 h1 (by omega) h3 h4
-                have hp0 := hct.2 j0 h3
-                have hi0 : ct.getD (ct.getD j0 0) 0 = j0 := hp0.2.2.2.2.1
-                have e1 : ssAt st1.ss (ct.getD j0 0 - 1) = ssAt st.ss (ct.getD j0 0 - 1) := by
-                  apply hsame
-                  · intro e
-                    have : ct.getD j0 0 = ct.getD j 0 := by omega
-                    rw [this, hij] at hi0; omega
-                  · omega
-                  · left
-                    have : ct.getD j0 0 - 1 + 1 = ct.getD j0 0 := by omega
-                    rw [this, hi0]; omega
-                have e2 : ssAt st1.ss (j0 - 1) = ssAt st.ss (j0 - 1) := by
-                  apply hsame
-                  · intro e
-                    have : j0 = ct.getD j 0 := by omega
-                    rw [this, hij] at h4; omega
-                  · omega
-                  · left
-                    have : j0 - 1 + 1 = j0 := by omega
-                    rw [this]; exact h3
-                rw [e1, e2]; exact hold }
+          exact ih (j+1) (mf' :: below) st1 st' (by omega) (by omega) (by omega) inv1 h
+
+/-- ... and the main loop cannot fail on a nested table -/
+theorem c2wMain_nested_noerr (n : Nat) (ct : List Nat) (hct : CtOk n ct) (hn : Nested ct) :
+    ∀ (fuel j : Nat) (pda : List Int) (st : C2W) (e : WErr), j ≤ n + 1 → 1 ≤ j → CInv n ct j pda st →
+      c2wMain false ct.toArray n fuel j pda st ≠ .error e := by
+  intro fuel
+  induction fuel with
+  | zero => intro j pda st e _ _ _ h; simp only [c2wMain] at h; cases h
+  | succ fuel ih =>
+    intro j pda st e hju hj1 inv h
+    unfold c2wMain at h
+    by_cases hend : j > n
+    · rw [if_pos hend] at h; cases h
+    have hjn : j ≤ n := by omega
+    rw [if_neg (by omega)] at h
+    simp only [bind, Except.bind, pure, Except.pure] at h
+    rw [inv.cct, rdNat_toArray ct (j : Int) (by omega) (by simp; rw [hct.1]; omega)] at h
+    simp only [Int.toNat_natCast] at h
+    by_cases h0 : ct.getD j 0 = 0
+    · simp only [h0, beq_self_eq_true, if_true] at h
+      exact ih (j+1) _ st e (by omega) (by omega) (cinv_push hct inv hj1 (Or.inl h0)) h
+    · have hb : (ct.getD j 0 == 0) = false := by rw [beq_eq_false_iff_ne]; exact h0
+      simp only [hb, Bool.false_eq_true, if_false] at h
+      by_cases hleft : j < ct.getD j 0
+      · rw [if_pos hleft] at h
+        exact ih (j+1) _ st e (by omega) (by omega) (cinv_push hct inv hj1 (Or.inr hleft)) h
+      · rw [if_neg hleft] at h
+        obtain ⟨above, below, hsplit, habove, hi, hij, hstep⟩ := cinv_right_end n ct hct hn inv hj1 hjn h0 hleft
+        split at h
+        · rename_i err herr
+          rw [hsplit] at herr
+          exact popLoop_nested_noerr n ct hct.1 j (ct.getD j 0) below ⟨hj1, hjn⟩ hi hij above 0 (-1) st err
+            habove (by omega) (by omega) inv.cct inv.sssize (by rw [inv.noaux]; simp) herr
+        · rename_i res hres
+          obtain ⟨hfound, hpk1, mf', hpda1, inv1⟩ := hstep res hres
+          obtain ⟨found, pda1, st1⟩ := res
+          simp only at hfound hpk1 hpda1 inv1 h
+          subst hfound hpda1
+          simp only [Bool.not_true, Bool.false_eq_true, if_false, hpk1] at h
+          exact ih (j+1) (mf' :: below) st1 e (by omega) (by omega) inv1 h
 
 /-- `esl_ct2wuss` on a nested pair table: when it returns `eslOK`, the string is a bracket labelling of the table -/
 theorem ct2wuss_labels (n : Nat) (ct : List Nat) (hct : CtOk n ct) (hn : Nested ct) (ss : Bytes)
@@ -457,6 +609,7 @@ theorem ct2wuss_labels (n : Nat) (ct : List Nat) (hct : CtOk n ct) (hn : Nested 
       have hinit : CInv n ct 1 [] { ss := Array.replicate n (0x3a : UInt8), cct := ct.toArray, rb := Array.replicate 26 (-1),
                                     auxpk := [], auxss := [], reached := 0 } := {
         cct := rfl, nopk := rfl, noaux := rfl, sssize := by simp
+        reached := by simp [rightEnds]
         ent := by intro a ha; simp at ha
         sorted := by simp
         lefts := by intro p h1 h2; omega
@@ -491,5 +644,96 @@ theorem nested_roundtrip' (n : Nat) (ct : List Nat) (hct : CtOk n ct) (hn : Nest
     (h : ct2wuss ct = .ok ss) : wuss2ct ss = some ct := by
   obtain ⟨hlen, hlab⟩ := ct2wuss_labels n ct hct hn ss h
   exact wuss2ct_of_labels' ss ct (by rw [hlen]; exact hct) hn hlab
+
+/-- `esl_ct2wuss` succeeds on every symmetric nested pair table (all pairs are found: `npairs == npairs_reached`) -/
+theorem ct2wuss_nested_ok (n : Nat) (ct : List Nat) (hct : CtOk n ct) (hn : Nested ct) : ∃ ss, ct2wuss ct = .ok ss := by
+  have hl1 : ct.length = n + 1 := hct.1
+  have hn1 : ct.length - 1 = n := by omega
+  have hinit : CInv n ct 1 [] { ss := Array.replicate n (0x3a : UInt8), cct := ct.toArray, rb := Array.replicate 26 (-1),
+                                auxpk := [], auxss := [], reached := 0 } := {
+    cct := rfl, nopk := rfl, noaux := rfl, sssize := by simp
+    reached := by simp [rightEnds]
+    ent := by intro a ha; simp at ha
+    sorted := by simp
+    lefts := by intro p h1 h2; omega
+    paired := by intro a ha; simp at ha
+    l1 := by
+      intro q hq _
+      simp only [ssAt, Array.toList_replicate, List.getD_eq_getElem?_getD, List.getElem?_replicate, hq, if_true,
+                 Option.getD_some]
+      decide
+    l2 := by intro j0 h1 h2; omega }
+  unfold ct2wuss ct2wussGen
+  simp only
+  rw [hn1]
+  cases hrun : c2wMain false ct.toArray n (n + 1) 1 []
+      { ss := Array.replicate n (if false = true then (0x2e : UInt8) else 0x3a), cct := ct.toArray,
+        rb := Array.replicate 26 (-1), auxpk := [], auxss := [], reached := 0 } with
+  | error e =>
+    exfalso
+    exact c2wMain_nested_noerr n ct hct hn (n+1) 1 [] _ e (by omega) (Nat.le_refl _) hinit hrun
+  | ok st =>
+    obtain ⟨pda', inv⟩ := c2wMain_nested n ct hct hn (n+1) 1 [] _ st (by omega) (by omega) (Nat.le_refl _) hinit hrun
+    have : countPairs ct = st.reached := by rw [inv.reached, countPairs_eq_rightEnds n ct hct]
+    simp only [this, bne_self_eq_false, Bool.false_eq_true, if_false]
+    exact ⟨_, rfl⟩
+
+/-- UNCONDITIONAL nested round trip -/
+theorem nested_roundtrip_total' (n : Nat) (ct : List Nat) (hct : CtOk n ct) (hn : Nested ct) :
+    ∃ ss, ct2wuss ct = .ok ss ∧ wuss2ct ss = some ct := by
+  obtain ⟨ss, h⟩ := ct2wuss_nested_ok n ct hct hn
+  exact ⟨ss, h, nested_roundtrip' n ct hct hn ss h⟩
+
+end EaselModel.Msa
+
+namespace EaselModel.Msa
+
+theorem breakPairs_length' (useme : List Bool) : ∀ (fuel apos : Nat) (ct : List Nat),
+    (breakPairs useme apos fuel ct).length = ct.length := by
+  intro fuel
+  induction fuel with
+  | zero => intros; rfl
+  | succ fuel ih =>
+    intro apos ct
+    simp only [breakPairs]
+    split
+    · rw [ih]; simp only [List.length_set]; split <;> simp
+    · exact ih _ _
+
+/-- the table left by the pair-removal loop is again a symmetric table, and nested if the original was -/
+theorem breakPairs_ctOk_nested (useme : List Bool) (n : Nat) (ct : List Nat) (hct : CtOk n ct) :
+    CtOk n (breakPairs useme 1 n ct) ∧ (Nested ct → Nested (breakPairs useme 1 n ct)) := by
+  have sp := breakPairs_spec' useme n ct hct
+  have hval : ∀ i, (breakPairs useme 1 n ct).getD i 0 ≠ 0 →
+      (breakPairs useme 1 n ct).getD i 0 = ct.getD i 0 ∧ ct.getD i 0 ≠ 0 ∧
+      useme.getD (i-1) false = true ∧ useme.getD (ct.getD i 0 - 1) false = true := by
+    intro i hi
+    rw [sp i] at hi ⊢
+    split at hi
+    · rename_i hc; rw [if_pos hc]; exact ⟨rfl, hc.1, hc.2.1, hc.2.2⟩
+    · exact absurd rfl hi
+  constructor
+  · refine ⟨by rw [breakPairs_length', hct.1], fun i hi => ?_⟩
+    obtain ⟨he, h0, hu1, hu2⟩ := hval i hi
+    have hp := hct.2 i h0
+    rw [he]
+    refine ⟨hp.1, hp.2.1, hp.2.2.1, hp.2.2.2.1, ?_, hp.2.2.2.2.2⟩
+    rw [sp (ct.getD i 0), hp.2.2.2.2.1]
+    rw [if_pos ⟨by omega, hu2, hu1⟩]
+  · intro hn i i' hi hi' hlt hlt2
+    obtain ⟨he, h0, _, _⟩ := hval i hi
+    obtain ⟨he', h0', _, _⟩ := hval i' hi'
+    rw [he] at hlt2 ⊢
+    rw [he']
+    exact hn i i' h0 h0' hlt hlt2
+
+/-- NESTED structures, string level: `esl_msa_RemoveBrokenBasepairsFromSS` succeeds and the string it writes reads back
+    (`esl_wuss2ct`) as exactly the original pairs whose two partners are both kept -/
+theorem removeBroken_nested' (ss : Bytes) (useme : List Bool) (ct : List Nat) (h : wuss2ct ss = some ct) (hn : Nested ct) :
+    ∃ ss', removeBrokenFromSS ss useme = .ok ss' ∧ wuss2ct ss' = some (breakPairs useme 1 ss.length ct) := by
+  have hct := wuss2ct_ctOk ss ct h
+  have hb := breakPairs_ctOk_nested useme ss.length ct hct
+  obtain ⟨ss', h1, h2⟩ := nested_roundtrip_total' ss.length _ hb.1 (hb.2 hn)
+  exact ⟨ss', by simp [removeBrokenFromSS, h, h1], h2⟩
 
 end EaselModel.Msa
